@@ -38,7 +38,7 @@ def dispatch (prop : String) : Option (String → String × String) :=
   | "C14" => some C14.run
   | "C14o" => some C14.runOracle
   | "C18" => some C18.run
-  | "C07" => some (Kan.run "KAN")
+  | "C07" => some C07o.run
   | "C01" => some (Kan.run "KAN")
   | "C01o" => some C01o.runOracle
   | "C07o" => some C07o.runOracle
